@@ -40,7 +40,7 @@ structure PosStore where
   lastChange : Nat := 0               -- _last_level_change_time
   avgNum : Nat := 0                   -- time_averaged_num_of_items_in_store = avgNum / avgDen
   avgDen : Nat := 1
-  fired : List Nat := []              -- tokens succeeded during the current step, in order
+  fired : List (Nat × Nat) := []              -- tokens succeeded during the current step, in order
   putLog : List Item := []            -- ghost: items accepted by put, in order
   gotLog : List Item := []            -- ghost: items returned by get, in order
   area : Nat := 0                     -- ghost: ∫ len(items) dt since t = 0
@@ -77,7 +77,7 @@ def trigPut (s : PosStore) : PosStore :=
   match s.putQ with
   | [] => s
   | t :: q =>
-    if s.admits then { s with putQ := q, putRes := s.putRes ++ [t], fired := s.fired ++ [t.id] }
+    if s.admits then { s with putQ := q, putRes := s.putRes ++ [t], fired := s.fired ++ [(t.id, s.now)] }
     else s
 
 /-- `_trigger_reserve_get`: same shape. -/
@@ -87,7 +87,7 @@ def trigGet (s : PosStore) : PosStore :=
   | t :: q =>
     if s.serves t then
       { s with getQ := q, getRes := s.getRes ++ [t], resEv := s.resEv ++ [t],
-               fired := s.fired ++ [t.id],
+               fired := s.fired ++ [(t.id, s.now)],
                everRes := s.everRes ++ (s.items.drop s.resEv.length).head?.toList.map (·.seq) }
     else s
 
